@@ -205,6 +205,133 @@ theorem accepted_stop_completes (st st1 : St) (m : Nat)
   subst h
   simp [step]
 
+/-- A start request that the guards of `Mode.start` turn down (game mode outside a game, mode already active - which
+includes stopping -, mode already starting) changes NOTHING: not the flags, not the registries, not the log and in particular
+not the priority of the running mode (`Mode.start` assigns `self.priority` only after its guards), whatever priority the
+request carried.  Together with `active_list_exact` (which holds after ANY op sequence, refused requests included):
+`active_modes`, which is only re-sorted when a mode becomes active or inactive, cannot get out of order through a
+request that is not accepted. -/
+theorem refused_start_changes_nothing (st : St) (m : Nat) (p : Option Int) (q g : Bool)
+    (h : g = false ∨ (st.modes m).active = true ∨ (st.modes m).starting = true) :
+    step st (.start m p q g) = some st := by
+  rcases h with h | h | h <;> simp [step, h]
+
+/-- ... in every reachable state also while the mode is stopping (its `mode_<n>_stopping` queue event may be held open for
+any time): stopping implies active. -/
+theorem refused_start_while_stopping (cfg : Nat → Cfg) (ops : List Op) (m : Nat) (p : Option Int) (q g : Bool)
+    (h : ((run (init cfg) ops).modes m).stopping = true) :
+    step (run (init cfg) ops) (.start m p q g) = some (run (init cfg) ops) :=
+  refused_start_changes_nothing _ m p q g (Or.inr (Or.inl ((run_inv _ ops (inv_init cfg)).stopAct m h)))
+
+/-- The priority of a mode changes in two steps only: an ACCEPTED start of that mode (to the requested or the configured
+priority) and its `_stopped` (back to 0) - no other op of any mode, and no refused request, touches it. -/
+theorem priority_changes_only_at_accepted_start_or_stopped (st st' : St) (op : Op) (m : Nat)
+    (h : step st op = some st') (hne : (st'.modes m).prio ≠ (st.modes m).prio) :
+    (∃ p q, op = .start m p q true ∧ (st.modes m).active = false ∧ (st.modes m).starting = false) ∨ op = .stopped m := by
+  cases op with
+  | start m' p q g =>
+    by_cases hm : m' = m
+    · subst hm
+      left
+      cases g with
+      | false => simp [step] at h; subst h; exact absurd rfl hne
+      | true =>
+        cases ha : (st.modes m').active with
+        | true => simp [step, ha] at h; subst h; exact absurd rfl hne
+        | false =>
+          cases hs : (st.modes m').starting with
+          | true => simp [step, hs] at h; subst h; exact absurd rfl hne
+          | false => exact ⟨p, q, rfl, rfl, rfl⟩
+    · exfalso
+      simp only [step] at h
+      split at h
+      · cases h; exact hne rfl
+      · cases h
+        apply hne
+        simp only [startCore]
+        rw [upd_other _ _ _ _ (Ne.symm hm)]
+        exact congrArg MState.prio (cleanup_other st m' m (Ne.symm hm))
+  | stopped m' =>
+    by_cases hm : m' = m
+    · subst hm; right; rfl
+    · exfalso
+      simp only [step] at h
+      split at h
+      · cases h
+      · cases h; apply hne; simp only []; rw [upd_other _ _ _ _ (Ne.symm hm)]
+  | started m' =>
+    exfalso
+    simp only [step] at h
+    split at h
+    · cases h
+    · cases h; apply hne; simp only []
+      by_cases hm : m = m'
+      · subst hm; simp
+      · rw [upd_other _ _ _ _ hm]
+  | startedCb m' =>
+    exfalso
+    simp only [step] at h
+    split at h
+    · cases h
+    · cases h; apply hne; simp only []
+      by_cases hm : m = m'
+      · subst hm; simp
+      · rw [upd_other _ _ _ _ hm]
+  | stop m' =>
+    exfalso
+    simp only [step] at h
+    split at h
+    · cases h; exact hne rfl
+    · cases h; apply hne; simp only []
+      by_cases hm : m = m'
+      · subst hm; simp
+      · rw [upd_other _ _ _ _ hm]
+  | stoppedCb m' =>
+    exfalso
+    simp only [step] at h
+    split at h
+    · cases h
+    · cases h; apply hne
+      simp only [cbCore]
+      by_cases hm : m = m'
+      · subst hm; simp [cleanup_prio]
+      · rw [upd_other _ _ _ _ hm]; exact congrArg MState.prio (cleanup_other st m' m hm)
+  | addH _ _ | addSw _ _ | addDl _ _ | remTm _ _ =>
+    simp only [step, Option.some.injEq] at h; cases h; exact absurd rfl hne
+  | fireDl _ _ | turnEnd _ | addTm _ _ | fireTm _ _ | cfgPlay _ _ | ctlCall _ _ =>
+    simp only [step] at h; split at h <;> cases h <;> exact absurd rfl hne
+  | cfgSub _ _ _ =>
+    simp only [step] at h; (repeat' split at h) <;> cases h <;> exact absurd rfl hne
+
+/-- An accepted stop cancels every delay and switch handler of the mode at once (`Mode.stop`: `_remove_mode_switch_handlers`,
+`delay.clear()`), not only when the `mode_<n>_stopping` queue event is released: right after the request no delay of the
+mode can fire, however long the queue is held (a delay added later, while stopping, is a new one - D12). -/
+theorem accepted_stop_cancels_delays (st st1 : St) (m : Nat)
+    (ha : (st.modes m).active = true) (hp : (st.modes m).stopping = false)
+    (h : step st (.stop m) = some st1) :
+    (∀ e ∈ st1.dl, e.owner ≠ m) ∧ (∀ e ∈ st1.sw, e.owner ≠ m) ∧ (∀ id, step st1 (.fireDl m id) = none) := by
+  simp [step, ha, hp] at h
+  subst h
+  refine ⟨?_, ?_, ?_⟩
+  · intro e he heq
+    simp only [List.mem_filter] at he
+    have := he.2; simp [ownedBy, heq] at this
+  · intro e he heq
+    simp only [List.mem_filter] at he
+    have := he.2; simp [ownedBy, heq] at this
+  · intro id
+    simp [step, ownedBy]
+
+/-- Device control events (`count_events: ev`, `enable_events: {ev: 2s}` ...: handlers the mode registers in
+`_setup_device_control_events`): whenever such a handler is called for a mode that is neither starting nor active - e.g.
+from the snapshot of a queue event's handler list taken before the mode stopped - nothing happens: the device's control
+method is not called and no delayed call is scheduled on the stopped mode's delay manager.  (What a call made while the
+mode runs schedules is an owned delay and is covered by `registries_restored`.) -/
+theorem stale_control_event_has_no_effect (st : St) (m : Nat) (dl : Option Nat)
+    (ha : (st.modes m).active = false) (hs : (st.modes m).starting = false) :
+    step st (.ctlCall m dl) = some st := by
+  simp [step, up, ha, hs]
+
 /-! ### non-vacuity and the recorded finding -/
 
 def exCfg : Nat → Cfg
@@ -316,6 +443,27 @@ example :
     (let s1 := run (init exCfg) [.start 1 none false true, .turnEnd 1, .turnEnd 1]
      let s2 := run s1 [.started 1, .stop 1, .startedCb 1, .stopped 1, .stoppedCb 1]
      (cnt s1.bus 1 .turn false, cnt s2.bus 1 .turn false, s2.bus.length, (s2.modes 1).active)) = (2, 0, 0, false) := by
+  decide
+
+/-- modes 1 (200) and 3 (300) are up; start requests for the running mode 1 with priorities above mode 3 (direct and
+through the start event), also while it is stopping, are refused: priority and order stay; the same request after the
+stop is accepted and mode 1 is then sorted in front -/
+example :
+    (let s1 := run (init exCfg) [.start 1 none false true, .start 3 none false true, .started 1, .started 3,
+        .start 1 (some 500) false true, .start 1 (some 301) true true, .stop 1, .start 1 (some 400) false true]
+     let s2 := run s1 [.stopped 1, .start 1 (some 400) false true, .started 1]
+     (s1.act, (s1.modes 1).prio, s1.log.length, s2.act, (s2.modes 1).prio)) = ([3, 1], 200, 8, [1, 3], 400) := by
+  decide
+
+/-- a delay of mode 1 is pending when the stop is accepted: it cannot fire while the stopping queue is held; a control
+event of mode 1 (delayed form, id 21) called after the stop from a queue event's snapshot schedules nothing, the same
+call while the mode ran did (id 20, cancelled by the stop) -/
+example :
+    (let s1 := run (init exCfg) [.start 1 none false true, .started 1, .addDl 1 9, .ctlCall 1 (some 20)]
+     let s2 := run s1 [.stop 1]
+     let s3 := run s2 [.stopped 1, .stoppedCb 1, .ctlCall 1 (some 21), .ctlCall 1 none]
+     (s1.dl.length, s2.dl.length, (step s2 (.fireDl 1 9)).isSome, s3.dl.length, (step s1 (.fireDl 1 20)).isSome)) =
+      (2, 0, false, 0, true) := by
   decide
 
 end MpfVerif.C07
